@@ -33,6 +33,9 @@ type Field struct {
 	Optional bool    `json:"optional_keyword"`
 	Type     string  `json:"type_name"` // full name of the message or enum type, no leading dot
 	JSON     string  `json:"json_name"`
+	Packed   bool    `json:"packed"` // repeated scalar encoded packed (proto3 default, or the packed option)
+
+	packedOpt *bool // parser: explicit [packed = ...]
 }
 
 type EnumValue struct {
@@ -61,6 +64,7 @@ type Method struct {
 	CStream bool   `json:"client_streaming"`
 	SStream bool   `json:"server_streaming"`
 	HTTP    *HTTP  `json:"http"`
+	Idem    string `json:"idempotency_level"` // IDEMPOTENCY_UNKNOWN, NO_SIDE_EFFECTS, IDEMPOTENT
 }
 
 type Service struct {
@@ -102,6 +106,10 @@ type Grpc struct {
 	FullNames   []NamedString `json:"full_method_names"`
 	ClientIface []string      `json:"client_interface"`
 	ServerIface []string      `json:"server_interface"`
+
+	Client   []ClientMethod   `json:"client_methods"`
+	Bindings []HandlerBinding `json:"handler_bindings"`
+	Handlers []HandlerFunc    `json:"handler_funcs"`
 }
 
 // GoEnum is a Go enum type of the generated package with its constants (go/ast).
@@ -113,8 +121,42 @@ type GoEnum struct {
 // GoField is a struct field carrying a protobuf tag.
 type GoField struct {
 	GoName string `json:"go_name"`
-	Tag    string `json:"tag"` // value of the protobuf key of the struct tag
+	Type   string `json:"go_type"` // type expression; a package qualifier is replaced by the import path
+	Tag    string `json:"tag"`     // value of the protobuf key of the struct tag
+	JSON   string `json:"json_tag"`
 	Oneof  string `json:"oneof_tag"`
+	Key    string `json:"key_tag"` // protobuf_key / protobuf_val of map fields
+	Val    string `json:"val_tag"`
+}
+
+// ExtType is a message or enum type of another file used by this one: its
+// proto package and the Go import path of its generated package.
+type ExtType struct {
+	Full    string `json:"full_name"`
+	Package string `json:"package"`
+	GoPath  string `json:"go_import_path"`
+}
+
+// ClientMethod is a method of the unexported client type of *_grpc.pb.go.
+type ClientMethod struct {
+	Name  string `json:"name"`
+	In    string `json:"in_type"`  // type of the parameter named in, empty for streaming methods
+	Out   string `json:"out_type"` // first result type
+	Const string `json:"invoked_constant"`
+}
+
+// HandlerBinding is one entry of the ServiceDesc literal (MethodName/StreamName, Handler).
+type HandlerBinding struct {
+	Method  string `json:"method"`
+	Handler string `json:"handler"`
+}
+
+// HandlerFunc is a _Service_Method_Handler function.
+type HandlerFunc struct {
+	Name   string   `json:"name"`
+	New    string   `json:"decoded_type"` // T of in := new(T), empty for streaming handlers
+	Calls  []string `json:"server_methods_called"`
+	Consts []string `json:"full_method_constants"`
 }
 
 type GoStruct struct {
@@ -202,8 +244,8 @@ func (f Field) coq(ind string) string {
 	if f.Oneof != nil {
 		oneof = "(Some (" + coqBytes(*f.Oneof) + "))"
 	}
-	return fmt.Sprintf("(MkField %s %s\n%s  %s %d%%N %s %s\n%s  %s\n%s  %s)", coqBytes(f.Name), coqZ(f.Number), ind,
-		coqBytes(f.Kind), f.Card, oneof, coqBool(f.Optional), ind, coqBytes(f.Type), ind, coqBytes(f.JSON))
+	return fmt.Sprintf("(MkField %s %s\n%s  %s %d%%N %s %s\n%s  %s\n%s  %s %s)", coqBytes(f.Name), coqZ(f.Number), ind,
+		coqBytes(f.Kind), f.Card, oneof, coqBool(f.Optional), ind, coqBytes(f.Type), ind, coqBytes(f.JSON), coqBool(f.Packed))
 }
 
 func (e Enum) coq(ind string) string {
@@ -226,8 +268,8 @@ func (m Method) coq(ind string) string {
 	if m.HTTP != nil {
 		h = "(Some " + m.HTTP.coq(ind+"  ") + ")"
 	}
-	return fmt.Sprintf("(MkMethod %s\n%s  %s\n%s  %s\n%s  %s %s\n%s  %s)", coqBytes(m.Name), ind, coqBytes(m.Input), ind,
-		coqBytes(m.Output), ind, coqBool(m.CStream), coqBool(m.SStream), ind, h)
+	return fmt.Sprintf("(MkMethod %s\n%s  %s\n%s  %s\n%s  %s %s\n%s  %s\n%s  %s)", coqBytes(m.Name), ind, coqBytes(m.Input), ind,
+		coqBytes(m.Output), ind, coqBool(m.CStream), coqBool(m.SStream), ind, h, ind, coqBytes(m.Idem))
 }
 
 func (s Service) coq(ind string) string {
@@ -244,7 +286,7 @@ func (f File) Coq() string {
 }
 
 func (g Grpc) Coq() string {
-	return fmt.Sprintf("(MkGrpc %s\n  %s\n  %s\n  %s\n  %s\n  %s\n  %s)", coqBytes(g.ServiceName),
+	return fmt.Sprintf("(MkGrpc %s\n  %s\n  %s\n  %s\n  %s\n  %s\n  %s\n  %s\n  %s\n  %s)", coqBytes(g.ServiceName),
 		coqBytesList("  ", g.Methods),
 		coqList("  ", g.Streams, func(_ string, s Stream) string {
 			return fmt.Sprintf("(%s, %s, %s)", coqBytes(s.Name), coqBool(s.SStream), coqBool(s.CStream))
@@ -253,7 +295,22 @@ func (g Grpc) Coq() string {
 		coqList("  ", g.FullNames, func(_ string, s NamedString) string {
 			return fmt.Sprintf("(%s, %s)", coqBytes(s.Name), coqBytes(s.Value))
 		}),
-		coqBytesList("  ", g.ClientIface), coqBytesList("  ", g.ServerIface))
+		coqBytesList("  ", g.ClientIface), coqBytesList("  ", g.ServerIface),
+		coqList("  ", g.Client, func(_ string, c ClientMethod) string {
+			return fmt.Sprintf("(MkClientMethod %s %s %s %s)", coqBytes(c.Name), coqBytes(c.In), coqBytes(c.Out), coqBytes(c.Const))
+		}),
+		coqList("  ", g.Bindings, func(_ string, b HandlerBinding) string {
+			return fmt.Sprintf("(%s, %s)", coqBytes(b.Method), coqBytes(b.Handler))
+		}),
+		coqList("  ", g.Handlers, func(i string, h HandlerFunc) string {
+			return fmt.Sprintf("(MkHandlerFunc %s %s %s %s)", coqBytes(h.Name), coqBytes(h.New), coqBytesList(i, h.Calls), coqBytesList(i, h.Consts))
+		}))
+}
+
+func coqExtTypes(es []ExtType) string {
+	return coqList("", es, func(_ string, e ExtType) string {
+		return fmt.Sprintf("(%s, (%s, %s))", coqBytes(e.Full), coqBytes(e.Package), coqBytes(e.GoPath))
+	})
 }
 
 func coqGoEnums(es []GoEnum) string {
@@ -267,7 +324,8 @@ func coqGoEnums(es []GoEnum) string {
 func coqGoStructs(ss []GoStruct) string {
 	return coqList("", ss, func(i string, s GoStruct) string {
 		return fmt.Sprintf("(%s, %s)", coqBytes(s.GoType), coqList(i, s.Fields, func(_ string, f GoField) string {
-			return fmt.Sprintf("(%s, %s, %s)", coqBytes(f.GoName), coqBytes(f.Tag), coqBytes(f.Oneof))
+			return fmt.Sprintf("(MkGoField %s %s\n%s    %s %s\n%s    %s %s %s)", coqBytes(f.GoName), coqBytes(f.Type), i, coqBytes(f.Tag),
+				coqBytes(f.JSON), i, coqBytes(f.Oneof), coqBytes(f.Key), coqBytes(f.Val))
 		}))
 	})
 }
